@@ -17,9 +17,19 @@ type c02Ctx struct {
 	def    uint
 	n      int
 	budget int
+	prior  []byte
 }
 
 // one file content -> one history on a fresh directory
+// the same, but the Dir has first seen the VALID record [prior] in place of the file and accepted
+// rightPw for it; then the file is replaced out of band (state kept by the implementation - caches,
+// memoised verdicts - must not outlive the file's content)
+func (x *c02Ctx) fileAfterLogin(prior, content []byte, rightPw []byte, class string) {
+	x.prior = prior
+	x.file(content, rightPw, class+"+after-login", true)
+	x.prior = nil
+}
+
 func (x *c02Ctx) file(content []byte, rightPw []byte, class string, withModel bool) {
 	x.n++
 	root := vScratch("c02")
@@ -40,6 +50,13 @@ func (x *c02Ctx) file(content []byte, rightPw []byte, class string, withModel bo
 		sl = 32
 	}
 	h.plant("root", true, adminP, 1600000000, x.r.bytes(sl), []byte("rootpw"), "\n", nil)
+	if x.prior != nil {
+		os.WriteFile(filepath.Join(h.base, "victim.user"), x.prior, 0600)
+		if ok, _, _, _, _ := h.dir.Authenticate("victim", string(rightPw)); !ok {
+			panic("c02: the valid record does not authenticate")
+		}
+		h.dir.Authenticate("victim", string(rightPw))
+	}
 	if err := os.WriteFile(filepath.Join(h.base, "victim.user"), content, 0600); err != nil {
 		panic(err)
 	}
@@ -249,6 +266,15 @@ func runC02(em *vEmitter, r *vRng) {
 				x.file([]byte(vRecordLine(p, 1700000000, salt, dig[:dl])+"\n"), pw, "mut/digest-prefix", true)
 			}
 			x.file([]byte(vRecordLine(p, 1700000000, salt, append(append([]byte{}, dig...), 0))+"\n"), pw, "mut/digest-extended", true)
+			// the same salt with another digest, after the valid record has been accepted on this Dir
+			for _, d2 := range [][]byte{dig[:len(dig)-1], append(append([]byte{}, dig...), 0), p.kdf(salt, []byte("another password")), make([]byte, len(dig)), nil, dig[:1]} {
+				x.fileAfterLogin(valid, []byte(vRecordLine(p, 1700000000, salt, d2)+"\n"), pw, "mut/digest-replaced")
+			}
+			flipped := append([]byte{}, dig...)
+			flipped[len(flipped)/2] ^= 0x10
+			x.fileAfterLogin(valid, []byte(vRecordLine(p, 1700000000, salt, flipped)+"\n"), pw, "mut/digest-bit-flipped")
+			x.fileAfterLogin(valid, []byte(line+":AAAA\n"), pw, "mut/field-added")
+			x.fileAfterLogin(valid, nil, pw, "edge/emptied")
 			x.file([]byte(vRecordLine(p, 1700000000, nil, p.kdf(nil, pw))+"\n"), pw, "edge/empty-salt-right-digest", true)
 			x.file([]byte(vRecordLine(p, 1700000000, salt[:len(salt)/2], p.kdf(salt[:len(salt)/2], pw))+"\n"), pw, "foreign/short-salt", true)
 			// (8b) digest computed for the right password and salt under a NEIGHBOUR of the configured
